@@ -10,7 +10,7 @@ def check(ctx):
     thorough = ctx.tier == "thorough"
     ctx.build()
     cases = os.path.join(ctx.scratch, "names.ndjson")
-    ctx.tlc("MC_Path", constants={"MaxSegs": 5 if thorough else 4}, env={"VERIF_OUT": cases}, workers=4)
+    ctx.tlc("MC_Path", constants={"MaxSegs": 4 if thorough else 3}, env={"VERIF_OUT": cases}, workers=4)
     res = os.path.join(ctx.scratch, "names_res.ndjson")
     ctx.vh_ok(["c19-replay", cases, res], timeout=1500)
     run_results(ctx, res, "MC_Path-names-driven-through-a-real-session-in-a-sandbox")
